@@ -131,7 +131,7 @@ def source_tie(pid):
         counts[r["class"]] = counts.get(r["class"], 0) + 1
     return {"files": files, "functions": len(rows), "by_class": counts,
             "not_translated": ["%s %s (%s)" % (r["file"], r["fn"], r["class"]) for r in rows if r["class"] not in ("translated", "inlined")],
-            "whole_workspace": inv["total"]}
+            "whole_workspace": inv["total"], "third_party_translated_from_registry": inv.get("third_party", {})}
 
 
 def run(prop, tier, seed, replay=None):
